@@ -116,13 +116,15 @@ def _block(geom, arim, attenuation):
     return _cache[key]
 
 
-def random_geometry(rng, nlegs=None, max_tilt_deg=20.0, max_inc_deg=75.0):
+def random_geometry(rng, nlegs=None, max_tilt_deg=20.0, max_inc_deg=75.0, integer_velocities=False):
     """Random source, walls (front wall z~0 transmission, then alternating back/front
     reflections), velocities (changes at every interface allowed = mode conversion)."""
     nlegs = int(nlegs or rng.integers(1, 5))
     c_f = float(rng.uniform(900, 2000))
     c_l = float(rng.uniform(3000, 7000))
     c_t = float(c_l * rng.uniform(0.40, 0.68))
+    if integer_velocities:                      # whole numbers of m/s (the geometry is traced with these values)
+        c_f, c_l, c_t = float(round(c_f)), float(round(c_l)), float(round(c_t))
     modes = ["L"] + [str(rng.choice(["L", "T"])) for _ in range(nlegs - 1)]
     vels = [c_f] + [c_l if m == "L" else c_t for m in modes[1:]]
     immersion = True
@@ -183,7 +185,7 @@ def grazing_geometry(rng):
                 c_f=c_f, c_l=c_l, c_t=c_t, rho_f=float(rng.uniform(800, 1300)), rho_s=float(rng.uniform(2000, 9000)))
 
 
-def arim_path(geom, arim, physical=False, attenuation=None, decoy=None, rigid=None, spin=None):
+def arim_path(geom, arim, physical=False, attenuation=None, decoy=None, rigid=None, spin=None, crowd=None):
     """One-point Interfaces, Path and Rays for the traced ray (real arim objects).
     physical=True (immersion geometries only): couplant/block Materials, L/T modes and
     interface kinds / transmission-reflection flags as block_in_immersion builds them, so that
@@ -200,6 +202,14 @@ def arim_path(geom, arim, physical=False, attenuation=None, decoy=None, rigid=No
             tang = np.array([math.cos(alpha_), -math.sin(alpha_)])
             q = np.asarray(p) + decoy * tang
             points = g.Points(np.array([[q[0], 0.0, q[1]], [p[0], 0.0, p[1]]]))
+        elif crowd is not None and 0 < i < npts - 1:
+            # a finely sampled wall that is flat (untilted frames) everywhere EXCEPT at the crossing point, whose frame has
+            # the true local normal (a narrow dent / weld toe): `crowd` samples, the crossing point at index crowd // 2
+            alpha_ = walls[i - 1][1]
+            tang = np.array([math.cos(alpha_), -math.sin(alpha_)])
+            offs = (np.arange(crowd) - crowd // 2) * 0.2e-3
+            pp = np.asarray(p)[None, :] + offs[:, None] * tang[None, :]
+            points = g.Points(np.stack([pp[:, 0], np.zeros(crowd), pp[:, 1]], axis=1))
         else:
             points = g.Points(np.array([[p[0], 0.0, p[1]]]))
         basis = g.default_orientations(points)
@@ -210,7 +220,12 @@ def arim_path(geom, arim, physical=False, attenuation=None, decoy=None, rigid=No
         kwargs = {}
         if 0 < i < npts - 1:
             alpha = walls[i - 1][1]
-            basis = basis.rotate(g.rotation_matrix_y(alpha))
+            if crowd is not None and decoy is None:
+                bc_ = np.array(basis.coords, copy=True)
+                bc_[crowd // 2] = g.rotate(bc_[crowd // 2], g.rotation_matrix_y(alpha))
+                basis = g.Points(bc_, basis.name)
+            else:
+                basis = basis.rotate(g.rotation_matrix_y(alpha))
             n = unit(alpha)
             kwargs["are_normals_on_inc_rays_side"] = bool(np.dot(-dirs[i - 1], n) > 0)
             kwargs["are_normals_on_out_rays_side"] = bool(np.dot(dirs[i], n) > 0)
@@ -239,6 +254,8 @@ def arim_path(geom, arim, physical=False, attenuation=None, decoy=None, rigid=No
         materials = [arim.Material(longitudinal_vel=v) for v in vels]
         path = arim.Path(interfaces, materials, ["L"] * len(vels))
     idx = 0 if decoy is None else 1
+    if crowd is not None and decoy is None:
+        idx = crowd // 2
     rays = arim.ray.Rays(np.zeros((1, 1)), np.full((npts - 2, 1, 1), idx, arim.settings.INT), path.to_fermat_path())
     path.rays = rays
     if decoy is not None:
